@@ -272,6 +272,12 @@ def run_property(prop, tier, seed, replay_file=None):
             what="hook events (ring pushes, parks, refusals, drains, receiver removals, batch composition) of the steered runs folded through "
                  "spec/TraceChan.tla, the trace form of spec/Channel.tla: every event must be an enabled step of the channel model",
             runs=E.CHAN["runs"], events=E.CHAN["events"], drift=len(E.CHAN["drift"]), drift_samples=E.CHAN["drift"][:5]),
+        collector_conformance=dict(
+            what="every batch the real collector processed in the validated runs (steered and free-running) folded through spec/Collector.tla's "
+                 "Process - the operator Fastrace.tla's collector step applies - by spec/TraceColl.tla: the entries the collector keeps afterwards "
+                 "(collect ids, buffered sets, parked attachments per id) and the records of the report (trace by trace: ids, parents, number of "
+                 "properties and events, order) must be what Process yields",
+            runs=E.COLL["runs"], batches=E.COLL["cycles"], records=E.COLL["records"], drift=len(E.COLL["drift"]), drift_samples=E.COLL["drift"][:5]),
     )
     write_evidence(prop, tier, seed, plan.get("level", "model_checking"), coverage, time.time() - t0, len(all_new),
                    ["steered executions are sequentially consistent (one actor at a time): no weak-memory behaviour is explored",
